@@ -74,7 +74,13 @@ class Acc:
             else:
                 self.nt.add(digest(case))
         if len(self.samples) < 2 or (len(self.samples) < 6 and nt and digest(case) % 97 == 0):
-            self.samples.append({"case": case, "label": label, "nontrivial": bool(nt)})
+            smp = {"case": case, "label": label, "nontrivial": bool(nt)}
+            if hasattr(sub, "describe"):
+                try:
+                    smp["readable"] = sub.describe(case)
+                except Exception:  # noqa: BLE001
+                    pass
+            self.samples.append(smp)
         return True
 
     def add_failure(self, case, v):
